@@ -165,6 +165,13 @@ def c01(ctx):
         k = [0, 0, 0, 0]
         k[(i * 4) % 256 // 64] = 1 << ((i * 4 + i // 64) % 64)
         cases.append((G.WIDTHS[i % 3], tuple(k), rng.bytes(rng.below(70), 1)))
+    for lane in range(4):                        # carry boundaries of the length injection / rotation, per lane
+        for e in G.EDGE_LANES:
+            for target in (0, 1):
+                k = [rng.next() for _ in range(4)]
+                k[lane] = (G.INIT0[lane] ^ e) if target == 0 else G.rot32(G.INIT1[lane] ^ e)
+                n = 1 + rng.below(31)
+                cases.append((G.WIDTHS[(lane + n) % 3], tuple(k), rng.bytes(n, rng.below(2))))
     reps = 300 if ctx.tier == "quick" else 20000
     for i in range(reps):
         n = rng.choice(G.LENS_SMALL + [rng.below(700)])
